@@ -342,6 +342,58 @@ QUICK_CONFIGS = ("dev", "release", "release-avx2", "release-nostd-sse41")
 ALL_CONFIGS = tuple(C.CONFIGS.keys())
 
 
+INTRINSICS = {   # name -> number of u64 operand words
+    "mm_add_epi64": 4, "mm_mul_epu32": 4, "mm_andnot_si128": 4, "mm_srli_epi64_32": 2, "mm_srli_epi64_62": 2, "mm_srli_epi64_63": 2,
+    "mm_shuffle_epi32_b1": 2, "mm_shuffle_epi8": 4, "mm_insert_epi32_3": 3, "mm_slli_si128_8": 2, "mm_sll_epi32": 4, "mm_srl_epi32": 4,
+    "mm_cmpgt_epi32": 4, "mm_set1_epi32": 1, "mm_cvtsi64_si128": 1, "mm_maskload_epi32": 4,
+    "mm256_add_epi64": 8, "mm256_mul_epu32": 8, "mm256_andnot_si256": 8, "mm256_shuffle_epi8": 8, "mm256_shuffle_epi32_b1": 4,
+    "mm256_permutevar8x32_epi32": 8, "mm256_sllv_epi32": 8, "mm256_srlv_epi32": 8, "mm256_sub_epi32": 8, "mm256_unpacklo_epi64": 8,
+    "mm256_cmpeq_epi64": 8, "mm256_srli_epi64_32": 4, "mm256_srli_epi64_62": 4, "mm256_srli_epi64_63": 4, "mm256_slli_epi64_63": 4,
+    "mm256_slli_si256_8": 4, "mm256_broadcastd_epi32": 2,
+}
+
+
+def intrinsic_crosscheck(ctx, impl, per=60):
+    """the model's definition of every x86 intrinsic the crate uses vs the real instruction, operand by operand"""
+    rng = Rng(ctx.seed).fork("intrin")
+    edge = G.EDGE_LANES + [0x0000001F0000001F, 0x0000002000000020, 0x0000002100000021, 0x8080808080808080, 0x0F0E0D0C0B0A0908, 31, 32, 33, 63, 64]
+    lines = []
+    for name, n in INTRINSICS.items():
+        for k in range(per):
+            ops = []
+            for j in range(n):
+                m = rng.below(4)
+                if m == 0:
+                    ops.append(rng.choice(edge))
+                elif m == 1 and ("sll" in name or "srl" in name) and j >= n // 2:
+                    ops.append(rng.below(40) | (rng.below(40) << 32))          # shift counts around the lane width
+                elif m == 2 and ("shuffle_epi8" in name or "permutevar" in name) and j >= n // 2:
+                    ops.append(int.from_bytes(bytes(rng.below(256) if rng.below(4) == 0 else rng.below(16) for _ in range(8)), "little"))
+                else:
+                    ops.append(rng.next())
+            lines.append("%s %s" % (name, " ".join("%x" % x for x in ops)))
+    text = "\n".join(lines) + "\n"
+    p = C._write_tmp(text, ".intrin")
+    try:
+        rc1, real = C.sh([impl.path, "intrin", p], timeout=300)
+        rc2, model = C.sh([os.path.join(C.OCAML, "driver"), "intrin", p], timeout=300)
+    finally:
+        os.unlink(p)
+    rl, ml = real.splitlines(), model.splitlines()
+    ctx.count("intrinsic operand sets", len(lines))
+    ctx.extra["intrinsics_crosschecked"] = sorted(INTRINSICS)
+    if rc1 != 0 or rc2 != 0 or len(rl) != len(lines) or len(ml) != len(lines):
+        ctx.violation("intrinsic cross-check could not run (rc %d/%d, %d/%d/%d lines)\n%s" % (rc1, rc2, len(lines), len(rl), len(ml), (real + model)[-600:]),
+                      None, no_input=True, tag="intrin")
+        return
+    for src, a, b in zip(lines, rl, ml):
+        ctx.evaluations += 1
+        if a != b:
+            ctx.violation("the model's semantics of an x86 intrinsic differs from the CPU: `%s` -> CPU `%s`, model `%s` "
+                          "(a defect of the model, not of highway-rs: X86.v must be corrected)" % (src, a, b), None, no_input=True, tag="intrin")
+            return
+
+
 # C02  SSE / AVX / dispatcher = portable, in every build configuration
 def c02(ctx):
     ctx.nontrivial_rule = ("one history = the same key and chunk list fed to PortableHash, SseHash, AvxHash, HighwayHasher and a "
@@ -401,6 +453,7 @@ def c02(ctx):
     keep = DIGEST + ("PANIC", "FAULT", "W", "NONE")
     multi_dynamic(ctx, QUICK_CONFIGS if ctx.tier == "quick" else ALL_CONFIGS, make, oracle, keep,
                   "SSE/AVX/dispatcher vs portable", "C02")
+    intrinsic_crosscheck(ctx, get_impl(ctx, "release"), per=60 if ctx.tier == "quick" else 3000)
     proof_verdict(ctx, ok)
 
 
